@@ -7,6 +7,7 @@ mod model;
 mod observers;
 mod product;
 mod real;
+mod scriptvec;
 
 use serde_json::{json, Value};
 use std::collections::HashMap;
@@ -40,6 +41,7 @@ fn main() {
         "drive" => cmd_drive(&m),
         "record" => cmd_record(&m),
         "merge" => cmd_merge(&m),
+        "scriptvec" => cmd_script(&m),
         "labelvec" => {
             let paths: Vec<PathBuf> = m.get("vectors").expect("--vectors").iter().map(PathBuf::from).collect();
             let j = labelvec::run(&paths, &PathBuf::from(one(&m, "obs-out").expect("--obs-out")));
@@ -180,6 +182,33 @@ fn cmd_merge(m: &HashMap<String, Vec<String>>) -> i32 {
     let offset: usize = one(m, "offset").unwrap_or("0").parse().unwrap();
     let t0 = std::time::Instant::now();
     let mut j = mergevec::run(&paths, &tk, &o, stride, offset);
+    j["wall_s"] = json!(t0.elapsed().as_secs_f64());
+    let out = serde_json::to_string(&j).unwrap();
+    if let Some(p) = one(m, "out") {
+        std::fs::write(p, &out).unwrap();
+    } else {
+        println!("{out}");
+    }
+    0
+}
+
+fn cmd_script(m: &HashMap<String, Vec<String>>) -> i32 {
+    let paths: Vec<PathBuf> = m.get("vectors").expect("--vectors").iter().map(PathBuf::from).collect();
+    let o = product::Opts {
+        n: one(m, "n").unwrap_or("2").parse().unwrap(),
+        cap: one(m, "cap").unwrap_or("5").parse().unwrap(),
+        budget: 0,
+        scratch: PathBuf::from(one(m, "scratch").unwrap_or(".")),
+        observers: vec![],
+        witness_out: one(m, "witness-out").map(PathBuf::from),
+        max_witness_per_sig: one(m, "per-sig").unwrap_or("2").parse().unwrap(),
+        max_witnesses: one(m, "max-witnesses").unwrap_or("40").parse().unwrap(),
+        tokens_json: json!({}),
+    };
+    let stride: usize = one(m, "stride").unwrap_or("1").parse().unwrap();
+    let offset: usize = one(m, "offset").unwrap_or("0").parse().unwrap();
+    let t0 = std::time::Instant::now();
+    let mut j = scriptvec::run(&paths, &o, stride, offset);
     j["wall_s"] = json!(t0.elapsed().as_secs_f64());
     let out = serde_json::to_string(&j).unwrap();
     if let Some(p) = one(m, "out") {
